@@ -91,8 +91,9 @@ func (d *Decrypter) processJoinRequest(decoded server.LoRaMessage) bool {
 	// Update the device with new keys and DevNonce
 	if !d.context.Config.DisableNonceCheck {
 		if err := d.context.Storage.AddDevNonce(device, joinRequest.DevNonce); err != nil {
-			lg.Warning("Unable to update DevNonce on device with EUI: %s: %v",
+			lg.Warning("Unable to update DevNonce on device with EUI: %s: %v. Ignoring JoinRequest",
 				device.DeviceEUI, err)
+			return false
 		}
 	}
 
